@@ -311,6 +311,97 @@ theorem CoreMeaning_dropTask (st : State) (n : String) (σ : Sched) (hc' : InCor
       have e1 : b'.sV (envOf st σ) = b'.sV (envOf (st.dropTask n) σ) := hag.i _ (by simp [State.ownI2, hown.1])
       have e2 : b'.eV (envOf st σ) = b'.eV (envOf (st.dropTask n) σ) := hag.i _ (by simp [State.ownI2, hown.2])
       rw [e1, e2]; exact h b' hb' iv hiv
+  case interrupted ws ivs =>
+    simp only [Bool.and_eq_true] at hb
+    obtain ⟨_, hrefs⟩ := hb
+    simp only [CoreMeaning]
+    have key : ∀ w ∈ ws, ∀ bt ∈ w,
+        (bt.1.sV (envOf st σ) = bt.1.sV (envOf (st.dropTask n) σ) ∧ bt.1.eV (envOf st σ) = bt.1.eV (envOf (st.dropTask n) σ)) ∧
+        (bt.2.isVar = true → (envOf (st.dropTask n) σ).i (.tDur bt.2.name) = (envOf st σ).i (.tDur bt.2.name)) := by
+      intro w hw bt hbt
+      have hr := (List.all_eq_true.1 ((List.all_eq_true.1 hrefs) w hw)) bt hbt
+      simp only [Bool.and_eq_true, beq_iff_eq, State.ownsBusy] at hr
+      refine ⟨⟨hag.i _ (by simp [State.ownI2, hr.1.1]), hag.i _ (by simp [State.ownI2, hr.1.2])⟩, ?_⟩
+      intro hv
+      exact (hag.i _ (by simp [State.ownI2, State.ownI, hr.2, hv])).symm
+    constructor
+    · rintro ⟨h1, h2⟩
+      refine ⟨h1, ?_⟩
+      intro w hw bt hbt
+      obtain ⟨⟨e1, e2⟩, e3⟩ := key w hw bt hbt
+      have := h2 w hw bt hbt
+      rw [e1, e2] at this
+      exact ⟨this.1, (InterruptedExact_congr _ _ _ _ bt.2 ivs e3).1 this.2⟩
+    · rintro ⟨h1, h2⟩
+      refine ⟨h1, ?_⟩
+      intro w hw bt hbt
+      obtain ⟨⟨e1, e2⟩, e3⟩ := key w hw bt hbt
+      have := h2 w hw bt hbt
+      rw [e1, e2]
+      exact ⟨this.1, (InterruptedExact_congr _ _ _ _ bt.2 ivs e3).2 this.2⟩
+  case periodicallyUnavailable busy ivs period start offset end_ =>
+    simp only [Bool.and_eq_true] at hb
+    obtain ⟨_, hrefs⟩ := hb
+    simp only [CoreMeaning]
+    have key : ∀ b' ∈ busy,
+        b'.sV (envOf st σ) = b'.sV (envOf (st.dropTask n) σ) ∧ b'.eV (envOf st σ) = b'.eV (envOf (st.dropTask n) σ) := by
+      intro b' hb'
+      have hr := (List.all_eq_true.1 hrefs) b' hb'
+      simp only [Bool.and_eq_true, State.ownsBusy] at hr
+      exact ⟨hag.i _ (by simp [State.ownI2, hr.1]), hag.i _ (by simp [State.ownI2, hr.2])⟩
+    constructor
+    · rintro ⟨h1, h2⟩
+      refine ⟨h1, ?_⟩
+      intro b' hb'
+      obtain ⟨e1, e2⟩ := key b' hb'
+      have := h2 b' hb'
+      unfold PeriodicMasked at this ⊢
+      rw [e1, e2] at this
+      exact this
+    · rintro ⟨h1, h2⟩
+      refine ⟨h1, ?_⟩
+      intro b' hb'
+      obtain ⟨e1, e2⟩ := key b' hb'
+      have := h2 b' hb'
+      unfold PeriodicMasked at this ⊢
+      rw [e1, e2]
+      exact this
+  case periodicallyInterrupted busy ivs period start offset end_ =>
+    simp only [Bool.and_eq_true] at hb
+    obtain ⟨_, hrefs⟩ := hb
+    simp only [CoreMeaning]
+    have key : ∀ bt ∈ busy,
+        (bt.1.sV (envOf st σ) = bt.1.sV (envOf (st.dropTask n) σ) ∧ bt.1.eV (envOf st σ) = bt.1.eV (envOf (st.dropTask n) σ)) ∧
+        (bt.2.isVar = true → (envOf (st.dropTask n) σ).i (.tDur bt.2.name) = (envOf st σ).i (.tDur bt.2.name)) := by
+      intro bt hbt
+      have hr := (List.all_eq_true.1 hrefs) bt hbt
+      simp only [Bool.and_eq_true, beq_iff_eq, State.ownsBusy] at hr
+      refine ⟨⟨hag.i _ (by simp [State.ownI2, hr.1.1]), hag.i _ (by simp [State.ownI2, hr.1.2])⟩, ?_⟩
+      intro hv
+      exact (hag.i _ (by simp [State.ownI2, State.ownI, hr.2, hv])).symm
+    constructor
+    · rintro ⟨h0, h1, h2⟩
+      refine ⟨h0, h1, ?_⟩
+      intro bt hbt
+      obtain ⟨⟨e1, e2⟩, e3⟩ := key bt hbt
+      have := h2 bt hbt
+      unfold PeriodicMasked at this ⊢
+      rw [e1, e2] at this
+      refine ⟨this.1, ?_⟩
+      rcases this.2 with hm | he
+      · exact Or.inl hm
+      · exact Or.inr ((PeriodicInterruptedExact_congr _ _ _ _ bt.2 ivs period offset e3).1 he)
+    · rintro ⟨h0, h1, h2⟩
+      refine ⟨h0, h1, ?_⟩
+      intro bt hbt
+      obtain ⟨⟨e1, e2⟩, e3⟩ := key bt hbt
+      have := h2 bt hbt
+      unfold PeriodicMasked at this ⊢
+      rw [e1, e2]
+      refine ⟨this.1, ?_⟩
+      rcases this.2 with hm | he
+      · exact Or.inl hm
+      · exact Or.inr ((PeriodicInterruptedExact_congr _ _ _ _ bt.2 ivs period offset e3).2 he)
   case indicatorTarget v value =>
     simp only [CoreMeaning]
     have hv : (st.dropTask n).ownI2 v = true := by simp only [State.ownI2, hb, Bool.or_true]
